@@ -612,6 +612,7 @@ func main() {
 		}
 	}
 
+	longInputs(s)
 	s.Close(fmt.Sprintf("A: all 1600 pairs of sequences of length <= 3 over {1,2,3} x 8 selectors x %d sampled call pattern(s) of depth 6; "+
 		"B: %d random inputs of length 0..60 with random patterns of 20..170 calls; "+
 		"C: %d random sources with ghost items / without Reset, random patterns; "+
@@ -619,4 +620,45 @@ func main() {
 		"E: all pairs of item sequences of length <= 2 over {1,2,ghost} x 4 Reseter combinations x %d selectors, complete call tree to depth %d. "+
 		"distinct = by content hash; non-trivial = both inputs non-empty and (a call tree of depth >= 3 or >= 3 calls with at least one Next)",
 		perCombo, nB, nC, allDepth, someDepth, someOneIn, len(advSels), advDepth), false)
+}
+
+// longInputs: inputs of 3000..20000 elements (library iterators over slices), some thousand elements pulled, Reset, and
+// the merge drained: the restarted merge is the whole merge (every element of both inputs, each once, in order).
+func longInputs(s *hx.Sink) {
+	for ci, n := range []int{3000, 4095, 4096, 4097, 9000, 20000} {
+		var a, b []int
+		for i := 0; i < n; i++ {
+			a = append(a, 2*i)
+			if i%3 != 0 {
+				b = append(b, 2*i+1)
+			}
+		}
+		mx := &iterable.Mixer[int]{}
+		mx.Init(func(x, y int) bool { return x <= y }, iterable.WrapIntSlice(a), iterable.WrapIntSlice(b))
+		pull := []int{n / 2, n, n + n/2, len(a) + len(b)}[ci%4]
+		for i := 0; i < pull && mx.HasNext(); i++ {
+			mx.Next()
+		}
+		if err := mx.Reset(); err != nil {
+			s.DirectViolation(0, "long inputs: Reset of a Mixer over two slice iterators failed", err.Error())
+			return
+		}
+		want := append(append([]int{}, a...), b...)
+		sort.Ints(want)
+		k := 0
+		for mx.HasNext() {
+			v, ok := mx.Next()
+			if !ok || k >= len(want) || v != want[k] {
+				s.DirectViolation(0, "long inputs: after Reset the merge is not the whole merge of the two inputs again",
+					map[string]any{"input_lengths": []int{len(a), len(b)}, "pulled_before_reset": pull, "position": k, "got": v, "ok": ok})
+				return
+			}
+			k++
+		}
+		if k != len(want) {
+			s.DirectViolation(0, "long inputs: after Reset the merge ends early", map[string]any{"input_lengths": []int{len(a), len(b)}, "pulled_before_reset": pull, "elements": k, "want": len(want)})
+			return
+		}
+	}
+	s.Count("long-inputs-with-reset")
 }
